@@ -207,15 +207,19 @@ class ZbossNcpProtocol(asyncio.Protocol):
         if self._buffer[0:2] != Frame.signature.serialize():
             raise InvalidFrame()
 
+        # Check the header checksum before trusting the length field
+        if CRC8(self._buffer[2:6]).digest() != self._buffer[6]:
+            raise InvalidFrame()
+
+        # Check that the packet type is ZBOSS NCP API HL.
+        if self._buffer[4] != t.TYPE_ZBOSS_NCP_API_HL:
+            raise InvalidFrame()
+
         length, _ = t.uint16_t.deserialize(self._buffer[2:4])
 
         # Don't bother deserializing anything if the packet is too short
         if len(self._buffer) < length + 2:
             raise BufferTooShort()
-
-        # Check that the packet type is ZBOSS NCP API HL.
-        if self._buffer[4] != t.TYPE_ZBOSS_NCP_API_HL:
-            raise InvalidFrame()
 
         # At this point we should have a complete frame
         # If not, deserialization will fail and the error will propapate up
